@@ -6,6 +6,7 @@ import (
 	"errors"
 	"fmt"
 	"math"
+	"os"
 	"strings"
 	"unsafe"
 
@@ -137,6 +138,11 @@ type explorer struct {
 	impC   wazero.CompiledModule
 	replay bool // verbose single-path mode
 	pool   *slabPool
+	// cache-sharing pairs
+	cache    wazero.CompilationCache
+	primeX   *explorer
+	cacheDir string
+	light    bool // sizes, contents, guest accesses and grow results only (host accessor code is not cached code)
 }
 
 type guest struct {
@@ -191,7 +197,13 @@ func (x *explorer) viol(sig, what string, path []Op, op *Op) {
 func (x *explorer) open() bool {
 	c := x.cfg
 	x.ctx = context.Background()
+	if c.Prime != nil && !x.prime() {
+		return false
+	}
 	rc := engineConfig(x.engine).WithMemoryLimitPages(c.Limit).WithMemoryCapacityFromMax(c.CapMax)
+	if x.cache != nil {
+		rc = rc.WithCompilationCache(x.cache)
+	}
 	if c.Shared {
 		rc = rc.WithCoreFeatures(api.CoreFeaturesV2 | experimental.CoreFeaturesThreads)
 	}
@@ -233,9 +245,70 @@ func (x *explorer) open() bool {
 	return true
 }
 
+// prime compiles and instantiates the binaries in another runtime (other limit / capacity-from-max) on the cache
+// the explored runtime is going to use, and compares its initial state completely.
+func (x *explorer) prime() bool {
+	c := x.cfg
+	ctx := context.Background()
+	newCache := func() wazero.CompilationCache {
+		if c.Prime.Cache == "mem" {
+			return wazero.NewCompilationCache()
+		}
+		if x.cacheDir == "" {
+			d, err := os.MkdirTemp("", "c14cache")
+			if err != nil {
+				panic("HARNESS-ERROR: " + err.Error())
+			}
+			x.cacheDir = d
+		}
+		cc, err := wazero.NewCompilationCacheWithDir(x.cacheDir)
+		if err != nil {
+			panic("HARNESS-ERROR: " + err.Error())
+		}
+		return cc
+	}
+	p := &explorer{cfg: c.primeConfig(), engine: x.engine, tier: x.tier, res: x.res, replay: x.replay, cache: newCache(), light: true}
+	x.primeX = p
+	if !p.open() {
+		return false
+	}
+	in := p.newInst()
+	if in == nil {
+		return false
+	}
+	in.enter(true)
+	in.close()
+	x.res.out("cache-pair:primed")
+	if c.Prime.Cache == "mem" {
+		x.cache = p.cache // same object; the priming runtime stays open during the exploration
+	} else {
+		p.close() // the directory is all the two runtimes share
+		p.cache.Close(ctx)
+		p.cache = nil
+		x.cache = newCache()
+	}
+	x.light = true
+	return true
+}
+
 func (x *explorer) close() {
 	if x.rt != nil {
 		x.rt.Close(x.ctx)
+	}
+	if p := x.primeX; p != nil {
+		x.primeX = nil
+		p.close()
+		if p.cache != nil && p.cache != x.cache {
+			p.cache.Close(context.Background())
+		}
+	}
+	if x.cache != nil && x.cfg.Prime != nil {
+		x.cache.Close(context.Background())
+		x.cache = nil
+	}
+	if x.cacheDir != "" {
+		os.RemoveAll(x.cacheDir)
+		x.cacheDir = ""
 	}
 	if x.pool != nil {
 		x.res.Outcomes["allocator:recycled-slabs-handed-out"] += x.pool.Recycled
@@ -1105,6 +1178,11 @@ func (in *inst) enter(full bool) {
 	in.checkSizes()
 	if full {
 		in.checkContent(true) // what the transition left: preservation and zero fill, also as the guests see it
+		if in.x.light {
+			in.probeGuest()
+			in.writeMarkers()
+			return
+		}
 		in.probeHost()
 		in.probeGuest()
 		in.probeAtomics()
@@ -1260,7 +1338,7 @@ func (x *explorer) hugeRealloc(capPages, newPages uint32) bool {
 // 4 GiB of page faults (5-30 s on this class of machine; page-fault throughput is a machine-wide bottleneck).
 func (x *explorer) allowHugeRealloc(depth int, pages uint32, op Op) bool {
 	c := x.cfg
-	if depth != 0 || op.Delta != c.Bound()-pages {
+	if depth != 0 || op.Delta != c.Bound()-pages || c.Prime != nil {
 		return false
 	}
 	switch x.tier.Name {
